@@ -236,6 +236,29 @@ func system(rec *mon.Recorder, c int) {
 		}
 		return nil
 	}
+	// Reads must not change the answer: the owner depends on the id and the partition count only, whatever a node
+	// has served before. Size queries and searches are issued on every node between the write phases (and, in
+	// every second case, before the first write).
+	reads := func(when string) {
+		for _, n := range cl.Nodes {
+			d := n.Dataset(dsId)
+			if d == nil {
+				continue
+			}
+			cctx, cancel := context.WithTimeout(ctx, 8*time.Second)
+			if _, _, err := d.SizeInfo(cctx); err == nil {
+				rec.Count("size_queries_between_writes", 1)
+			}
+			if _, err := d.Search(cctx, []float32{float32(rng.Intn(100)), 1, 2}, 3); err == nil {
+				rec.Count("searches_between_writes", 1)
+			}
+			cancel()
+		}
+		rec.Seen("read_phases", when)
+	}
+	if c%2 == 1 {
+		reads("before-first-write")
+	}
 	serial := 0
 	// every entry node x every write path: insert -> (update from another node) -> remove from a third
 	for e, entry := range cl.Nodes {
@@ -285,6 +308,7 @@ func system(rec *mon.Recorder, c int) {
 	// --- batches that span partitions: every item of one request goes to its own
 	// owner, whatever else is in the request
 	for round := 0; round < 3 && !violated; round++ {
+		reads("before-multi-partition-batches")
 		entry := cl.Nodes[round%nodes]
 		n := 8 + rng.Intn(17)
 		var items []*pb.BatchItem
